@@ -133,7 +133,8 @@ def judge_collected(ctx, label, tb, contexts, res, wb, flags_only=False):
                             a = np.asarray(a).astype("int64") // {"s": 1, "ms": 10 ** 3, "us": 10 ** 6, "ns": 10 ** 9}.get(unit, 1)
                         else:
                             a = np.asarray(a)
-                    ok = a.shape == (tb.n,) and all(a[i] == src[i] for i in range(tb.n) if covered[i]) and not any(
+                    # (Python scalars compare exactly: an int64 id beyond 2**53 differs from its rounded float64)
+                    ok = a.shape == (tb.n,) and all(a[i].item() == np.asarray(src)[i].item() for i in range(tb.n) if covered[i]) and not any(
                         np.ma.getmaskarray(arr)[i] for i in range(tb.n) if covered[i])
                 except Exception:  # noqa: BLE001
                     ok = False
@@ -268,6 +269,25 @@ def run(ctx) -> None:
                         judge_collected(ctx, f"pandas:far-dates-{unit}", tb, ctxs, res, wb)
                         ctx.count("c06.far_date_collections")
                         ctx.case(f"far-dates|{unit}|n{n}|k{len(combo)}")
+            # (c) integer observations beyond 2**53 (counts, raw ADC words, epoch nanoseconds): the collected data still
+            #     equal the source on covered rows, whatever part of the record each window covers
+            for fe in ("pandas", "numpy-dict", "xarray-ds"):
+                for n in (4, 7):
+                    for dt_, base_ in (("int64", 2 ** 60 + 1), ("int64", -(2 ** 62) + 3), ("uint64", 2 ** 63 + 5), ("int32", 2 ** 30 + 1)):
+                        tb = P.Table(n, streams=("v1",), with_pos=False)
+                        tb.data["v1"] = np.array([base_ + 3 * r for r in range(n)], dtype=dt_)
+                        for combo in ([(1, 3)], [(0, 2), (2, n)], [(2, n), (0, 1)], [(0, n)], [(0, n), (1, 2)]):
+                            ctxs = [{"window": to_window(tb, iv), "streams": {"v1": [("qartod", "vf_probe_test", {"tag": ci + 1})]}}
+                                    for ci, iv in enumerate(combo)]
+                            res, err = P.run_frontend(fe, tb, P.build_config(ctxs), scratch, {})
+                            wb = {"kind": "collect", "frontend": fe, "table": tb.describe(), "contexts": core.jsonable(ctxs),
+                                  "arrival": "config order", "note": f"stream data are {dt_} values {base_} + 3*row"}
+                            if err is not None:
+                                ctx.violation(f"C06:{fe}:big-integers:run-raised:{type(err).__name__}@{P.client_where(err)}", {**wb, "error": repr(err)[:300]})
+                                continue
+                            judge_collected(ctx, f"{fe}:big-integers", tb, ctxs, res, wb)
+                            ctx.count("c06.big_integer_collections")
+                            ctx.case(f"big-integers|{fe}|{dt_}|n{n}|k{len(combo)}")
             n = 20001
             secs = [P.T0 + (k // 2) * 60 + (31 * 86400 if k % 2 else 0) for k in range(n)]  # rows alternate between two months
             tb = P.Table(n, streams=("v1",), secs=secs, with_pos=False)
